@@ -482,3 +482,36 @@ theorem countProtocol_le : ∀ (sched : List (Nat × Act)) (ws : List Worker), G
         omega
 
 end Mhd.Stop
+
+namespace Mhd.StopTpc
+
+theorem one_fixed (c : TC) (early : Bool) (h : InitC c) :
+    let r := phase3 true (daemonResume (phase1 true (c, early)), early)
+    r.place = .cleanup ∧ r.notified = 1 ∧ r.exited = true := by
+  obtain ⟨hp, hn, _⟩ := h
+  cases early <;> rcases hp with hp | hp <;>
+    simp [phase1, phase3, threadExit, daemonResume, hp, hn]
+
+theorem stop_fixed (cs : List (TC × Bool)) (h : ∀ p ∈ cs, InitC p.1) :
+    ∃ r, stopTpc true cs = some r ∧ r.length = cs.length ∧
+      ∀ c ∈ r, c.place = .freed ∧ c.notified = 1 ∧ c.exited = true := by
+  have key : ∀ c ∈ settle true cs, c.place = .cleanup ∧ c.notified = 1 ∧ c.exited = true := by
+    intro c hc
+    simp only [settle, List.mem_map] at hc
+    obtain ⟨p, hp, rfl⟩ := hc
+    exact one_fixed p.1 p.2 (h p hp)
+  refine ⟨(settle true cs).map freeC, ?_, by simp [settle], ?_⟩
+  · unfold stopTpc
+    rw [if_pos]
+    simp only [List.all_eq_true]
+    intro c hc
+    simp [(key c hc).1]
+  · intro c hc
+    simp only [List.mem_map] at hc
+    obtain ⟨b, hb, rfl⟩ := hc
+    obtain ⟨h1, h2, h3⟩ := key b hb
+    simp [freeC, h1, h2, h3]
+
+theorem stop_unfixed_spins : stopTpc false [(⟨.susp, 0, false⟩, true)] = none := by decide
+
+end Mhd.StopTpc
